@@ -186,9 +186,8 @@ def names_event(s, toks_ref, counts, blocked, files1):
     full = None
     shape = 'enumeration'
     if files1 is not None:       # text of a buffer parso could not parse
-        import re
         shape += '/parso-error-nodes'
-        if re.search(r'(^|[\r\n])\f[^\r\n]*:[ \t]*(#[^\r\n]*)?(\r\n|\r|\n)\t', files1):
+        if L.error_nodes_follow_formfeed(s._module_node, files1):
             shape = 'enumeration/formfeed-tab-indent'
     for label, kw, flt in (('all', dict(definitions=True, references=True), lambda b: True),
                            ('defs', dict(definitions=True, references=False), lambda b: b),
@@ -505,6 +504,7 @@ def pvalidate(ctx, traces, label, nthreads=8, chunk=250):
         with sem:
             try:
                 sh = _Shim(ctx, k)
+                sh.base = base
                 shims.append(sh)
                 out[base] = validate_traces('Trace_Positions', 'Trace_Positions.cfg', part, sh, label,
                                             timeout=3000, chunk=chunk)
@@ -532,17 +532,26 @@ def pvalidate(ctx, traces, label, nthreads=8, chunk=250):
     verdicts = []
     for b, _ in slices:
         verdicts += out[b]
-    return verdicts
+    rejects = []          # every rejected event: (trace index, event number, failing clauses)
+    for sh in shims:
+        for res, lab in sh.runs:
+            for p_ in res.tagged('REJECT'):
+                why = p_[2]
+                why = sorted(map(str, why[1])) if isinstance(why, tuple) else [str(why)]
+                rejects.append((sh.base + p_[0] - 1, p_[1], why))
+    for i, v in enumerate(verdicts):
+        if not v['accepted'] and not any(r[0] == i for r in rejects):
+            rejects.append((i, v['at'], v['why'] or ['?']))
+    return verdicts, sorted(rejects)
 
 
 # ---------------------------------------------------------------- verdicts
-def judge(ctx, verdicts, traces, metas, srcs):
-    for v, t, ms, src in zip(verdicts, traces, metas, srcs):
-        if v['accepted']:
-            continue
-        ev = t[v['at'] - 1] if v['at'] else None
-        meta = ms[v['at'] - 1] if v['at'] else None
-        why = ','.join(v['why'] or ['?'])
+def judge(ctx, rejects, traces, metas, srcs):
+    for (ti, at, whyl) in rejects:
+        t, ms, src = traces[ti], metas[ti], srcs[ti]
+        ev = t[at - 1] if at else None
+        meta = ms[at - 1] if at else None
+        why = ','.join(whyl)
         if ev is not None and ev.get('ev') == 'files':
             raise MachineryError('harness line table rejected by the Reference: %s' % src)
         shape = (meta or {}).get('shape', '?')
@@ -556,7 +565,7 @@ def judge(ctx, verdicts, traces, metas, srcs):
         ctx.violation('%s:%s' % (shape, why),
                       'a Name reported by %s violates %s (name %r, points into %s)' % (
                           how, why, (meta or {}).get('name'), (meta or {}).get('file')),
-                      {'source': src, 'event': evs, 'meta': meta, 'at': v['at']})
+                      {'source': src, 'event': evs, 'meta': meta, 'at': at})
 
 
 def run(ctx):
@@ -677,8 +686,9 @@ def run(ctx):
     nev = sum(len(t) - 1 for t in traces)
     ctx.count('name_records', nev)
     ctx.log('validating %d traces, %d records' % (len(traces), nev))
-    verdicts = pvalidate(ctx, traces, 'Trace_Positions')
-    judge(ctx, verdicts, traces, metas, srcs)
+    verdicts, rejects = pvalidate(ctx, traces, 'Trace_Positions')
+    ctx.count('records_rejected', len(rejects))
+    judge(ctx, rejects, traces, metas, srcs)
 
     # ---- 4. binding self-test
     bad = []
